@@ -59,8 +59,8 @@ def expr(rng, bp=1):
     return canon(rand_tree(rng, rng.randint(0, 4)), bp)
 
 def rand_stmt(rng, depth):
-    kinds = ['decl', 'assign', 'expr', 'gate', 'measure', 'assignMeasure', 'reset', 'barrier', 'brk', 'cont', 'end']
-    if depth > 0: kinds += ['if', 'ifelse', 'while', 'for'] * 2
+    kinds = ['decl', 'assign', 'expr', 'gate', 'measure', 'assignMeasure', 'reset', 'barrier', 'brk', 'cont', 'end', 'ret']
+    if depth > 0: kinds += ['if', 'ifelse', 'while', 'for', 'gatedef', 'def'] * 2
     k = rng.choice(kinds)
     if k == 'decl':
         ty = rng.choice(list(TY))
@@ -74,6 +74,11 @@ def rand_stmt(rng, depth):
     if k == 'ifelse': return ('ifelse', expr(rng), rand_block(rng, depth - 1), rand_block(rng, depth - 1))
     if k == 'while': return ('while', expr(rng), rand_block(rng, depth - 1))
     if k == 'for': return ('for', rng.choice(list(TY)), expr(rng), expr(rng), rand_block(rng, depth - 1))
+    if k == 'gatedef': return ('gatedef', rng.choice([None, 0, 1, 2]), rng.randint(0, 2), rand_block(rng, depth - 1))
+    if k == 'def':
+        return ('def', [rng.choice(list(TY) + ['qubit']) for _ in range(rng.randint(0, 3))],
+                rng.choice([None] + list(TY)), rand_block(rng, depth - 1))
+    if k == 'ret': return ('ret', expr(rng) if rng.random() < 0.6 else None)
     return (k,)
 
 def starts_minus(st):
@@ -89,6 +94,9 @@ def rand_block(rng, depth):
         out.append(st)
     return out
 
+PK = dict(TY, qubit='QUBIT_KW')
+def ptoks(n): return ['IDENT'] + ['COMMA', 'IDENT'] * n
+def pnodes(n): return ['E:PARAM', 'T:IDENT:1', 'X'] + ['T:COMMA:1', 'E:PARAM', 'T:IDENT:1', 'X'] * n
 def qtoks(n): return ['IDENT'] + ['COMMA', 'IDENT'] * n
 def qnodes(n): return ['E:IDENTIFIER', 'T:IDENT:1', 'X'] + ['T:COMMA:1', 'E:IDENTIFIER', 'T:IDENT:1', 'X'] * n
 def tytoks(ty, w): return [TY[ty]] + (['L_BRACK'] + etoks(w) + ['R_BRACK'] if w else [])
@@ -120,6 +128,12 @@ def stoks(s):
     if k == 'ifelse': return ['IF_KW', 'L_PAREN'] + etoks(s[1]) + ['R_PAREN'] + btoks(s[2]) + ['ELSE_KW'] + btoks(s[3])
     if k == 'while': return ['WHILE_KW', 'L_PAREN'] + etoks(s[1]) + ['R_PAREN'] + btoks(s[2])
     if k == 'for': return ['FOR_KW', TY[s[1]], 'IDENT', 'IN_KW', 'L_BRACK'] + etoks(s[2]) + ['COLON'] + etoks(s[3]) + ['R_BRACK'] + btoks(s[4])
+    if k == 'gatedef':
+        return ['GATE_KW', 'IDENT'] + (['L_PAREN'] + ptoks(s[1]) + ['R_PAREN'] if s[1] is not None else []) + ptoks(s[2]) + btoks(s[3])
+    if k == 'def':
+        return ['DEF_KW', 'IDENT', 'L_PAREN'] + sep(s[1], lambda p: [PK[p], 'IDENT'], 'COMMA') + ['R_PAREN'] + \
+            (['MINUS+', 'R_ANGLE', TY[s[2]]] if s[2] else []) + btoks(s[3])
+    if k == 'ret': return ['RETURN_KW'] + (etoks(s[1]) if s[1] else []) + ['SEMICOLON']
 
 def snodes(s):
     k = s[0]
@@ -145,6 +159,16 @@ def snodes(s):
     if k == 'ifelse':
         return ['E:IF_STMT', 'T:IF_KW:1', 'T:L_PAREN:1'] + enodes(s[1]) + ['T:R_PAREN:1'] + bnodes(s[2]) + ['T:ELSE_KW:1'] + bnodes(s[3]) + ['X']
     if k == 'while': return ['E:WHILE_STMT', 'T:WHILE_KW:1', 'T:L_PAREN:1'] + enodes(s[1]) + ['T:R_PAREN:1'] + bnodes(s[2]) + ['X']
+    if k == 'gatedef':
+        pl = ['E:PARAM_LIST', 'T:L_PAREN:1'] + pnodes(s[1]) + ['T:R_PAREN:1', 'X'] if s[1] is not None else []
+        return ['E:GATE', 'T:GATE_KW:1', 'E:NAME', 'T:IDENT:1', 'X'] + pl + ['E:PARAM_LIST'] + pnodes(s[2]) + ['X'] + bnodes(s[3]) + ['X']
+    if k == 'def':
+        tp = lambda p: ['E:TYPED_PARAM', 'E:SCALAR_TYPE', f'T:{PK[p]}:1', 'X', 'E:NAME', 'T:IDENT:1', 'X', 'X']
+        rs = ['E:RETURN_SIGNATURE', 'T:THIN_ARROW:2', 'E:SCALAR_TYPE', f'T:{TY[s[2]]}:1', 'X', 'X'] if s[2] else []
+        return ['E:DEF', 'T:DEF_KW:1', 'E:NAME', 'T:IDENT:1', 'X', 'E:TYPED_PARAM_LIST', 'T:L_PAREN:1'] + \
+            sep(s[1], tp, 'T:COMMA:1') + ['T:R_PAREN:1', 'X'] + rs + bnodes(s[3]) + ['X']
+    if k == 'ret':
+        return ['E:EXPR_STMT', 'E:RETURN_EXPR', 'T:RETURN_KW:1'] + (enodes(s[1]) if s[1] else []) + ['X'] + semi
     if k == 'for':
         return ['E:FOR_STMT', 'T:FOR_KW:1', 'E:SCALAR_TYPE', f'T:{TY[s[1]]}:1', 'X', 'E:NAME', 'T:IDENT:1', 'X', 'T:IN_KW:1',
                 'E:FOR_ITERABLE', 'E:RANGE_EXPR', 'T:L_BRACK:1'] + enodes(s[2]) + ['T:COLON:1'] + enodes(s[3]) + \
